@@ -40,7 +40,13 @@ struct World
   std::vector<std::vector<int>> viewgram_of; // bins grouped per (segment, view): indices into P.bins
 };
 
-inline shared_ptr<World> make_world(const Geom& g)
+inline shared_ptr<ProjMatrixByBinUsingRayTracing> make_matrix(int sym);
+// sym = 0: P from the matrix with all symmetries off and no cache ("direct"); sym = 1: P from the matrix exactly as make_matrix(1)
+// configures it for the objective function (all symmetries, cache).  Both agree except on bins whose LOR end point lies on a voxel
+// boundary (a rounding tie that the statement of C03 excludes; C03 is the check of that agreement), where a row derived through a
+// symmetry may assign the ~half-voxel end piece to the neighbouring voxel.  A check of the reconstruction formulae must therefore
+// take P from the matrix the reconstruction uses.
+inline shared_ptr<World> make_world(const Geom& g, int sym = 0)
 {
   shared_ptr<World> w(new World);
   w->g = g;
@@ -50,8 +56,17 @@ inline shared_ptr<World> make_world(const Geom& g)
   shared_ptr<ExamInfo> ex(new ExamInfo);
   ex->imaging_modality = ImagingModality::PT;
   w->im->set_exam_info(*ex);
-  auto m = small::direct_matrix(w->pdi, w->im);
-  w->P = small::extract_P(*m, *w->pdi, *w->im);
+  if (sym)
+    {
+      auto m = make_matrix(1);
+      m->set_up(w->pdi, w->im);
+      w->P = small::extract_P(*m, *w->pdi, *w->im);
+    }
+  else
+    {
+      auto m = small::direct_matrix(w->pdi, w->im);
+      w->P = small::extract_P(*m, *w->pdi, *w->im);
+    }
   w->nb = w->P.bins.size();
   w->nv = w->P.nvox;
   std::map<std::pair<int, int>, int> idx;
